@@ -164,23 +164,24 @@ type Rec struct {
 	Logs        []string
 	Arbitrary   []map[string]string
 
-	HandlerErr  string
-	HandlerRan  bool
-	Panic       string
-	PanicStack  string
-	Probe       Probe
-	Status      int
-	Header      http.Header
-	RespBody    string
-	JSON        map[string]interface{}
-	Location    string // Location header or JSON "location"
-	SessOut     map[string]string
-	CookiesOut  map[string]string
-	Before      *Snapshot
-	After       *Snapshot
-	Now         time.Time
-	AdminErr    string
-	FaultsFired int
+	HandlerErr   string
+	HandlerRan   bool
+	HandlerStart int // value of the global sequence counter when the wrapped route handler began
+	Panic        string
+	PanicStack   string
+	Probe        Probe
+	Status       int
+	Header       http.Header
+	RespBody     string
+	JSON         map[string]interface{}
+	Location     string // Location header or JSON "location"
+	SessOut      map[string]string
+	CookiesOut   map[string]string
+	Before       *Snapshot
+	After        *Snapshot
+	Now          time.Time
+	AdminErr     string
+	FaultsFired  int
 }
 
 // Diff is the storage delta of this request.
@@ -212,7 +213,7 @@ type World struct {
 	SMSs  []SMSMsg
 	Logs  []string
 
-	Faults   map[int]error // fault plan for the next request: index among faultable calls → error
+	Faults   map[int]error    // fault plan for the next request: index among faultable calls → error
 	FaultOps map[string]error // fault plan by operation name (first occurrence in the next request)
 	FailSMS  bool
 	handler  http.Handler
@@ -613,6 +614,7 @@ func (e errHandler) Wrap(h func(http.ResponseWriter, *http.Request) error) http.
 	observed := func(rw http.ResponseWriter, r *http.Request) error {
 		if e.w.cur != nil {
 			e.w.cur.HandlerRan = true
+			e.w.cur.HandlerStart = e.w.seq
 		}
 		err := h(rw, r)
 		if err != nil && e.w.cur != nil {
